@@ -70,10 +70,13 @@ func (c *DNSCache) lookup(ctx context.Context, name string) (*dnsCacheEntry, boo
 
 	// If we've hit, or exceed somehow, the maximum size of the cache
 	// then we will need to evict the oldest entries to make room.
-	for len(c.entries) >= c.size {
+	for len(c.entries) >= c.size && len(c.entries) > 0 {
 		name, ts := "", time.Now().Add(c.duration)
 		for n, e := range c.entries {
-			if e.expires.Before(ts) {
+			// !After rather than Before: an entry inserted at this very clock
+			// reading expires exactly at ts and must still be evictable,
+			// otherwise this loop never terminates.
+			if !e.expires.After(ts) {
 				ts, name = e.expires, n
 			}
 		}
